@@ -24,7 +24,8 @@ from fractions import Fraction
 
 from .. import astutil as A
 from .. import runoff
-from ..alg import Interp, Obj, Poly, PyFunc, Undecided, fn, to_poly
+from ..alg import Interp, Obj, Poly, PyFunc, Undecided, fn, same_value, to_poly
+from .. import listnp
 from ..dep import Deps
 
 EXPLANATION = (
@@ -345,6 +346,8 @@ def run(ctx):
         except (Undecided, KeyError, TypeError) as e:
             ctx.unrecognised(r7, sh, "shapesys.required_parset", f"not interpretable: {e}")
     _staterror(ctx, r7, repo)
+    _staterror_widths(ctx, r7, repo)
+    _constraint_tables(ctx, r3, repo)
 
     # ---------------------------------------------------------------- R8
     red = repo.func(PU, "reduce_paramsets_requirements")
@@ -432,3 +435,123 @@ def _staterror(ctx, rid, repo):
             ctx.violated(rid, rp, "staterror required_parset", "staterror does not request Gaussian(1 | gamma, sigma_b) per bin", found=str({k: str(v) for k, v in out.items()}))
     except (Undecided, KeyError, TypeError) as e:
         ctx.unrecognised(rid, rp, "required_parset", str(e))
+
+
+def _staterror_widths(ctx, rid, repo):
+    """Interpret staterror_builder.finalize on a concrete-shape configuration (3 global bins in two channels,
+    samples A, B carry modifier m on bins 0-1, sample C does not; A has a ZERO nominal in bin 1; modifier z acts
+    on bin 2 of A with zero uncertainty) and compare the widths it requests with delta_b of the template."""
+    rel = "src/pyhf/modifiers/staterror.py"
+    fin = repo.method(rel, "staterror_builder", "finalize")
+    at = Poly.atom
+    T, F_ = True, False
+    zero = Poly()
+
+    def cell(mask, unc, nom):
+        return {"data": {"mask": [list(m) for m in mask], "uncrt": [list(u) for u in unc], "nom_data": [list(n) for n in nom]}}
+
+    bd = {
+        "staterror/m": {
+            "A": cell([[T, T], [F_]], [[at("uA0"), at("uA1")], [zero]], [[at("nA0"), zero], [at("nA2")]]),
+            "B": cell([[T, T], [F_]], [[at("uB0"), at("uB1")], [zero]], [[at("nB0"), at("nB1")], [at("nB2")]]),
+            "C": cell([[F_, F_], [F_]], [[zero, zero], [zero]], [[at("nC0"), at("nC1")], [at("nC2")]]),
+        },
+        "staterror/z": {
+            "A": cell([[F_, F_], [T]], [[zero, zero], [zero]], [[at("nA0"), zero], [at("nA2")]]),
+            "B": cell([[F_, F_], [F_]], [[zero, zero], [zero]], [[at("nB0"), at("nB1")], [at("nB2")]]),
+            "C": cell([[F_, F_], [F_]], [[zero, zero], [zero]], [[at("nC0"), at("nC1")], [at("nC2")]]),
+        },
+    }
+    names = ["uA0", "uA1", "uB0", "uB1", "nA0", "nA2", "nB0", "nB1", "nB2", "nC0", "nC1", "nC2"]
+    region = {n: Fraction(p) for n, p in zip(names, (2, 3, 5, 7, 11, 13, 17, 19, 23, 29, 31, 37))}
+    got = {}
+    ext = listnp.externals()
+    ext["required_parset"] = lambda a, k: {"sigmas": a[0], "fixed": a[1]}
+    site = f"{rel}::staterror_builder.finalize [interpreted: 2 modifiers x 3 samples x 3 bins]"
+    try:
+        it = Interp({"pyhf": Obj("pyhf", {"default_backend": Obj("default_backend")})}, {"builder_data": bd, "required_parsets": got}, region, cls_name="staterror_builder", externals=ext)
+        it.run(A.strip_docstring(fin.node.body))
+        s0 = at("nA0") + at("nB0")
+        want_m = [fn("sqrt", (at("uA0") / s0) ** 2 + (at("uB0") / s0) ** 2), fn("sqrt", (at("uA1") / at("nB1")) ** 2 + (at("uB1") / at("nB1")) ** 2)]
+        pm = got.get("m", [None])[0]
+        pz = got.get("z", [None])[0]
+        if not (isinstance(pm, dict) and isinstance(pz, dict)):
+            ctx.violated(rid, fin, "required_parsets", "finalize does not request one parameter set per staterror modifier name", found=str(sorted(got)))
+            return
+        sig = list(pm["sigmas"])
+        verdicts = [same_value(x, w) for x, w in zip(sig, want_m)] if len(sig) == 2 else [False]
+        if None in verdicts:
+            ctx.unrecognised(rid, fin, "staterror widths", f"widths {[str(to_poly(x)) for x in sig]} not comparable with the template")
+        elif all(verdicts) and list(pm["fixed"]) == [False, False]:
+            ctx.holds(rid, site, "delta_b = sqrt(sum over carrying samples of uncertainty_sb^2) / (sum over carrying samples of nominal_sb) on the modifier's own bins; a sample with zero nominal in a bin still contributes its uncertainty; non-carrying samples are excluded")
+        else:
+            ctx.violated(rid, fin, "staterror widths", "the staterror constraint width is not the quadrature-summed relative MC uncertainty of the participating samples (checked with one participating sample having zero nominal yield in a bin and one sample not carrying the modifier)", expected=f"sigmas={[str(w) for w in want_m]} fixed=[False, False]", found=f"sigmas={[str(to_poly(x)) for x in sig]} fixed={list(pm['fixed'])}")
+        if [to_poly(x) for x in pz["sigmas"]] == [Poly.const(1)] and list(pz["fixed"]) == [True]:
+            ctx.holds(rid, site, "a bin without MC uncertainty gets width 1 and a fixed parameter")
+        else:
+            ctx.violated(rid, fin, "staterror zero width", "a staterror bin with zero uncertainty is not held fixed with a unit width (the Gaussian constraint would be degenerate)", expected="sigmas=[1] fixed=[True]", found=f"sigmas={[str(to_poly(x)) for x in pz['sigmas']]} fixed={list(pz['fixed'])}")
+    except (Undecided, KeyError, TypeError, ValueError, IndexError, AttributeError) as e:
+        ctx.unrecognised(rid, fin, "finalize", f"not interpretable: {type(e).__name__}: {e}")
+
+
+def _constraint_tables(ctx, rid, repo):
+    """Interpret both combined-constraint constructors on a four-paramset configuration whose auxdata order is
+    not alphabetical, whose Poisson sets have auxdata != factors (a measurement override) and whose Gaussian sets
+    are one with explicit widths and one without: the constant tables (data indices, widths / rate factors, in
+    batch form too) must be those of the configuration."""
+    at = Poly.atom
+    psets = {
+        "zg": Obj("zg", {"n_parameters": Poly.const(2), "pdf_type": "normal", "sigmas": [at("s0"), at("s1")], "auxdata": [at("xg0"), at("xg1")]}, closed=True),
+        "mp": Obj("mp", {"n_parameters": Poly.const(2), "pdf_type": "poisson", "factors": [at("f0"), at("f1")], "auxdata": [at("a0"), at("a1")]}, closed=True),
+        "ag": Obj("ag", {"n_parameters": Poly.const(1), "pdf_type": "normal", "auxdata": [at("xg2")]}, closed=True),
+        "bp": Obj("bp", {"n_parameters": Poly.const(1), "pdf_type": "poisson", "factors": [at("f2")], "auxdata": [at("a2")]}, closed=True),
+    }
+    order = ["zg", "mp", "ag", "bp"]
+    for cname, kind, want_names, want_data, tab_attr, want_tab in (
+        ("gaussian_constraint_combined", "normal", ["zg", "ag"], [0, 1, 4], "sigmas", ["s0", "s1", "1"]),
+        ("poisson_constraint_combined", "poisson", ["mp", "bp"], [2, 3, 5], "batched_factors", ["f0", "f1", "f2"]),
+    ):
+        c = repo.cls(CON, cname)
+        init = c.methods["__init__"]
+        for bs in (None, 2):
+            seen = {}
+
+            def viewer(a, k, seen=seen, bs=bs):
+                seen["names"] = list(a[2])
+                rows = bs or 1
+                sel = {"zg": [at("i_zg0"), at("i_zg1")], "mp": [at("i_mp0"), at("i_mp1")], "ag": [at("i_ag0")], "bp": [at("i_bp0")]}
+                return Obj("viewer", {"index_selection": [[list(sel[n]) for _ in range(rows)] for n in a[2]]})
+
+            ext = listnp.externals()
+            ext.update({
+                "param_set": lambda a, k: psets[a[0]],
+                "ParamViewer": viewer,
+                "subscribe": lambda a, k: PyFunc(lambda a2, k2: None, "subscriber"),
+                "get_backend": lambda a, k: (Obj("tensorlib"), None),
+            })
+            cfg = Obj("pdfconfig", {"auxdata": [at(f"aux{j}") for j in range(6)], "auxdata_order": list(order), "npars": Poly.const(6), "par_map": Obj("par_map")})
+            attrs = {}
+            site = f"{CON}::{cname}.__init__ [interpreted, batch_size={bs}]"
+            try:
+                it = Interp({"pdfconfig": cfg, "batch_size": None if bs is None else Poly.const(bs), "pyhf": Obj("pyhf", {"default_backend": Obj("default_backend")}), "events": Obj("events")}, attrs, {}, methods={n: m.node for n, m in c.methods.items()}, cls_name=cname, externals=ext)
+                it.run(A.strip_docstring(init.node.body))
+                data = attrs.get(f"{kind}_data")
+                tab = attrs.get(tab_attr)
+                acc = attrs.get("access_field")
+                rows = bs or 1
+                got_data = [int(to_poly(x).const_value()) for x in data]
+                if tab_attr == "sigmas" and bs is None:
+                    got_tab = [[str(to_poly(x)) for x in tab]]
+                    want_rows = 1
+                else:
+                    got_tab = [[str(to_poly(x)) for x in row] for row in tab]
+                    want_rows = rows
+                want_acc = [[f"i_{n}{j}" for n in want_names for j in range(int(psets[n].attrs["n_parameters"].const_value()))] for _ in range(rows)]
+                got_acc = [[str(to_poly(x)) for x in row] for row in acc]
+                ok = seen.get("names") == want_names and got_data == want_data and got_tab == [want_tab] * want_rows and got_acc == want_acc
+                if ok:
+                    ctx.holds(rid, site, f"constrained names {want_names}; data indices {want_data}; {tab_attr} {want_tab} x {want_rows} row(s); parameter indices in the same order")
+                else:
+                    ctx.violated(rid, init, f"{cname} tables [batch_size={bs}]", f"the constant tables of the {kind} constraint do not pair each constrained parameter with its own auxiliary-data position and its own " + ("width (parset.sigmas, else 1)" if kind == "normal" else "rate factor (parset.factors, not the auxiliary data, which a measurement may override)"), expected=f"names={want_names} data={want_data} {tab_attr}={[want_tab] * want_rows} access={want_acc}", found=f"names={seen.get('names')} data={got_data} {tab_attr}={got_tab} access={got_acc}")
+            except (Undecided, KeyError, TypeError, ValueError, IndexError, AttributeError) as e:
+                ctx.unrecognised(rid, init, f"{cname}.__init__ [batch_size={bs}]", f"not interpretable: {type(e).__name__}: {e}")
